@@ -324,21 +324,29 @@ def read_scsv(file):
         ]
         missingstr = schema["missing"]
         fillvals = [d.get("fill", _SCSV_DEFAULT_FILL) for d in schema["fields"]]
-        return Columns._make(
-            [
-                tuple(
-                    map(
-                        ft.partial(
-                            _parse_scsv_cell, f, missingstr=missingstr, fillval=fill
-                        ),
-                        x,
+        try:
+            return Columns._make(
+                [
+                    tuple(
+                        map(
+                            ft.partial(
+                                _parse_scsv_cell, f, missingstr=missingstr, fillval=fill
+                            ),
+                            x,
+                        )
                     )
-                )
-                for f, fill, x in zip(
-                    coltypes, fillvals, zip(*list(reader), strict=True), strict=True
-                )
-            ]
-        )
+                    for f, fill, x in zip(
+                        coltypes,
+                        fillvals,
+                        zip(*list(reader), strict=True),
+                        strict=True,
+                    )
+                ]
+            )
+        except ValueError as e:
+            raise _err.SCSVError(
+                f"unable to parse data in '{file}' according to its schema: {e}"
+            ) from None
 
 
 def write_scsv_header(stream, schema, comments=None):
